@@ -5,7 +5,8 @@
    network).  After every event it reports what kind of event it was (an
    election start, a vote request delivered with its answer, a vote answer
    delivered, an append request written by a leader, an append request
-   delivered, a success answer delivered to the leader, a snapshot installed, a
+   delivered, an append request cut by the network after some of its entries
+   were handled, a success answer delivered to the leader, a snapshot installed, a
    crash+restart, or anything else) together with the projection of EVERY node's state onto the
    abstract state (term, vote, role, log, durable prefix, commit index).
 
@@ -128,6 +129,7 @@ Inductive aevent :=
 | AVoteRes (c v : N) (granted : bool)      (* candidate c handled v's answer to its request of its current term *)
 | ASend (l : N) (m : areq)                 (* leader l wrote append request m *)
 | ARecv (f : N) (m : areq)                 (* f handled append request m *)
+| ARecvCut (f : N) (m : areq) (k : nat)    (* f handled the first k entries of request m, then the connection broke *)
 | AAck (l f : N) (k : nat)                 (* leader l handled f's success answer to a request whose last index is k *)
 | ACrash (n : N) (c : nat)                 (* n crashed and restarted with commit index c *)
 | AInstall (f t l : N) (K : list entry) (c : nat)  (* f installed the snapshot of leader l (term t) standing for the log prefix K; its commit index is then c *)
@@ -136,7 +138,7 @@ Inductive aevent :=
 Definition ev_node (e : aevent) : N :=
   match e with
   | AStart n => n | AVoteReq v _ _ _ => v | AVoteRes c _ _ => c | ASend l _ => l
-  | ARecv f _ => f | AAck l _ _ => l | ACrash n _ => n | AInstall f _ _ _ _ => f | AOther n => n
+  | ARecv f _ => f | ARecvCut f _ _ => f | AAck l _ _ => l | ACrash n _ => n | AInstall f _ _ _ _ => f | AOther n => n
   end.
 
 Inductive res := Ok (s : state) | Fail (code : nat).
@@ -202,6 +204,10 @@ Definition main_step (s : state) (e : aevent) : res :=
   | ARecv f m =>
       if negb (existsb (areq_eqb m) (appends s)) then Fail 50 else
       if (f =? rldr m) then Fail 51 else Ok (do_recv_append f m s)
+  | ARecvCut f m k =>
+      (* the network delivered only the first k entries of a request of the pool *)
+      if negb (existsb (areq_eqb m) (appends s)) then Fail 52 else
+      if (f =? rldr m) then Fail 53 else Ok (do_recv_append f (trunc_req m k) (do_trunc m k s))
   | AAck l f k =>
       let x := st s l in
       let a := mkAck (cur x) f l k in
@@ -326,7 +332,7 @@ Qed.
 
 Lemma main_step_sound s e s' : main_step s e = Ok s' -> steps V s s'.
 Proof.
-  destruct e as [n|v t c g|c v g|l m|f m|l f k|n c|f t l K c|n]; simpl.
+  destruct e as [n|v t c g|c v g|l m|f m|f m k|l f k|n c|f t l K c|n]; simpl.
   - destruct (N.eqb_spec n 0) as [|Hn]; [discriminate|].
     destruct (role_eqb (role (st s n)) Leader) eqn:Hr.
     + intro H; inversion H; subst.
@@ -366,6 +372,16 @@ Proof.
     destruct (N.eqb_spec f (rldr m)) as [|Hne]; [discriminate|].
     intro H; inversion H; subst.
     destruct (recv_append_refines V s f m G1 Hne) as [E|Hst]; [rewrite E; apply steps_refl | apply steps_one; exact Hst].
+  - (* cut request: the network truncates (STrunc), then the truncated request is delivered *)
+    destruct (negb (existsb _ _)) eqn:G1; [discriminate|]. apply negb_false_iff in G1.
+    apply (existsb_In areq_eqb areq_eqb_eq) in G1.
+    destruct (N.eqb_spec f (rldr m)) as [|Hne]; [discriminate|].
+    intro H; inversion H; subst.
+    assert (Hin : In (trunc_req m k) (appends (do_trunc m k s))) by (unfold do_trunc; simpl; left; reflexivity).
+    assert (Hne' : f <> rldr (trunc_req m k)) by exact Hne.
+    eapply steps_trans; [apply steps_one; apply STrunc; exact G1|].
+    destruct (recv_append_refines V (do_trunc m k s) f (trunc_req m k) Hin Hne') as [E|Hst];
+      [rewrite E; apply steps_refl | apply steps_one; exact Hst].
   - destruct (negb (role_eqb _ _)) eqn:G1; [discriminate|]. apply negb_false_iff in G1. apply role_eqb_eq in G1.
     destruct (negb (existsb _ _)) eqn:G2; [discriminate|]. apply negb_false_iff in G2.
     apply (existsb_In aeqb aeqb_eq) in G2.
